@@ -48,7 +48,10 @@ def ts(rnd, frac=True):
     base = "20%02d-%02d-%02d %02d:%02d:%02d" % (rnd.randint(19, 24), rnd.randint(1, 12), rnd.randint(1, 28), rnd.randint(0, 23),
                                                rnd.randint(0, 59), rnd.randint(0, 59))
     if frac and rnd.random() < 0.7:
-        base += ".%06d" % rnd.randint(0, 999999)
+        # boundary fractions too: SQLite's datetime() rounds at .9995, midnight / minute roll-overs
+        base += ".%06d" % rnd.choice([rnd.randint(0, 999999), rnd.randint(0, 999999), 999999, 999500, 999499, 0, 1, 500000])
+    if rnd.random() < 0.05:
+        base = base[:11] + "23:59:59" + base[19:]
     return base
 
 
